@@ -292,3 +292,76 @@ Definition sstep (st : doc * table) (o : sop) : doc * table :=
   | UnclaimTrail n =>
     let '(_, now, d') := unclaim_comment (cur_of (tget tb (STrail n))) d in (d', tset tb (STrail n) (opt_list now))
   end.
+
+(* ---- all six call kinds on (document, ownership table) ---------------------------------------
+   The interleaving calls take the repeated field's item list (with the first/last token of every item) as
+   observed input, like `start` above; `op_ok` says that this input is the one the table holds and that the items
+   lie in store order behind the field's placeholder (true of every reachable tree: checked on every call). *)
+Inductive cop :=
+| OS (o : sop)
+| OClaimInter (r ph : Z) (items : list item) (mfirst mlast : Z) (flt : cset)
+| OUnclaimInter (r : Z) (items : list item) (flt : cset).
+
+Definition cstep (st : doc * table) (o : cop) : doc * table :=
+  match o with
+  | OS o => sstep st o
+  | OClaimInter r ph items mf ml flt =>
+    match claimer_claim (fst st) ph items mf ml flt with
+    | (Ok (_, its), d') => (d', tset (snd st) (SRep r) (comments_of its))
+    | (Err _, d') => (d', snd st)
+    end
+  | OUnclaimInter r items flt =>
+    match unclaim_inter (fst st) items flt with
+    | (Ok (_, its), d') => (d', tset (snd st) (SRep r) (comments_of its))
+    | (Err _, d') => (d', snd st)
+    end
+  end.
+
+(* what remains of the token list `w` after walking over the items in order: None when an item does not lie
+   (first token, then last token) behind the previous one *)
+Fixpoint leftover (w : list tok) (items : list item) : option (list tok) :=
+  match items with
+  | [] => Some w
+  | it :: rest =>
+    match split_at (it_first it) w with
+    | Some (_, ff) => match split_at (it_last it) ff with
+                      | Some (_, _ :: a) => leftover a rest
+                      | _ => None
+                      end
+    | None => None
+    end
+  end.
+Definition items_ordered_b (d : doc) (ph : Z) (items : list item) : bool :=
+  match leftover (from_incl d ph) items with Some _ => true | None => false end.
+
+Definition old_comments (items : list item) : list Z := comments_of (map oitem_of items).
+
+Definition op_ok (st : doc * table) (o : cop) : bool :=
+  match o with
+  | OS _ => true
+  | OClaimInter r ph items _ _ _ =>
+    list_eqb Z.eqb (old_comments items) (tget (snd st) (SRep r)) && items_ordered_b (fst st) ph items
+  | OUnclaimInter r items _ => list_eqb Z.eqb (old_comments items) (tget (snd st) (SRep r))
+  end.
+Fixpoint hist_ok (ops : list cop) (st : doc * table) : bool :=
+  match ops with [] => true | o :: r => op_ok st o && hist_ok r (cstep st o) end.
+
+(* what auto_claim_comments emits: surrounding claims with ignore_if_already_claimed=True, interleaving claims of
+   everything (no explicit comment list) *)
+Definition is_auto_op (o : cop) : bool :=
+  match o with
+  | OS (ClaimLead _ _ ig _) | OS (ClaimTrail _ _ ig _) => ig
+  | OClaimInter _ _ _ _ _ None => true
+  | _ => false
+  end.
+
+(* boolean form of the invariant, evaluated by the harness on every initial state *)
+Fixpoint nodup_zb (l : list Z) : bool :=
+  match l with [] => true | x :: r => negb (existsb (Z.eqb x) r) && nodup_zb r end.
+Definition inv_b (st : doc * table) : bool :=
+  nodup_zb (map t_id (fst st))
+  && forallb (fun t => negb (is_comment t)
+                       || ((owners (t_id t) (snd st) <=? 1)%nat
+                           && Bool.eqb (t_claimed t) (owners (t_id t) (snd st) =? 1)%nat)) (fst st)
+  && forallb (fun e => match fst e with SRep _ => true | _ => (length (snd e) <=? 1)%nat end) (snd st).
+Definition all_claimed_b (d : doc) : bool := forallb (fun t => negb (is_comment t) || t_claimed t) d.
